@@ -245,3 +245,47 @@ def spec_units(ops):
                 units.append("".join(cur))
                 cur = []
     return units, "".join(cur)
+
+
+# ------------------------------------------------------------------ lines with stripped control characters (oracle)
+STRIP_CTRL = ("\x08", "\x0b", "\x0c")  # BS VT FF: rich.control.strip_control_codes removes them (and CR) from appended text; BEL is kept
+
+
+def ctl_stream(parts):
+    """The characters written for a structured line: ("t", text) | ("c", control char) | ("s", SGR params) | ("l", url or None) | ("cr",)."""
+    out = []
+    for p in parts:
+        if p[0] in ("t", "c"):
+            out.append(p[1])
+        elif p[0] == "s":
+            out.append(ESC + "[" + ";".join(str(x) for x in p[1]) + "m")
+        elif p[0] == "l":
+            out.append(ESC + "]8;;" + (p[1] or "") + ESC + "\\")
+        else:
+            out.append("\r")
+    return "".join(out)
+
+
+def ctl_line_meaning(parts, state=None, link=None):
+    """Per character meaning of ONE structured line, computed from its structure (no tokenizer involved, nothing shared
+    with the Lean model or rich): the characters of the text parts, each with the SGR state (ECMA-48 fold) and hyperlink
+    in force where it stands; BS / VT / FF occupy no cell and do not move any styling (a BEL outside an OSC string is an
+    ordinary character of the text and keeps its place); carriage returns at the END
+    of the line erase nothing; what precedes the last other carriage return is not shown and — as decode_line cuts it
+    off before reading any escape — has no effect on the state either.
+    Returns (cells, state, link): the state and link carried to the next line decoded by the same decoder."""
+    st = state or _blank()
+    parts = list(parts)
+    while parts and parts[-1][0] == "cr":
+        parts.pop()
+    last = max((i for i, p in enumerate(parts) if p[0] == "cr"), default=-1)
+    cells = []
+    for p in parts[last + 1:]:
+        if p[0] == "t" or (p[0] == "c" and p[1] not in STRIP_CTRL):
+            for ch in p[1]:
+                cells.append((ch, st["on"], st["fg"], st["bg"], link))
+        elif p[0] == "s":
+            st = sgr_fold(st, p[1])
+        elif p[0] == "l":
+            link = p[1] or None
+    return cells, st, link
